@@ -5,6 +5,9 @@
 // Lines:  CP <what> <rank> : <sorted local contents of the new object> | <of the original>
 #include <ygm/comm.hpp>
 #include <ygm/container/array.hpp>
+#include <ygm/container/bag.hpp>
+#include <ygm/container/counting_set.hpp>
+#include <ygm/container/disjoint_set.hpp>
 #include <ygm/container/map.hpp>
 #include <ygm/container/set.hpp>
 #include <algorithm>
@@ -65,6 +68,40 @@ int main(int argc, char **argv) {
     s += " |";
     for (size_t i = 0; i < a.m_local_vec.size(); ++i) s += " " + std::to_string(a.m_local_start_index + i) + "=" + std::to_string(a.m_local_vec[i]);
     line(s);
+    world.cf_barrier();
+  }
+  {
+    // a copy is a container of its own: what is inserted into it afterwards goes to the copy, not to the original
+    bag<long> a(world);
+    for (int i = 0; i < K; ++i) a.async_insert(i * R + me);
+    bag<long> b(a);
+    for (int i = 0; i < K; ++i) b.async_insert(100000 + i * R + me);
+    world.barrier();
+    line("CP bag_copy " + std::to_string(me) + " :" + keys(b.m_local_bag) + " |" + keys(a.m_local_bag));
+    world.cf_barrier();
+  }
+  {
+    counting_set<long> a(world);
+    for (int i = 0; i < K; ++i) a.async_insert(i % 5);
+    counting_set<long> b(a);
+    for (int i = 0; i < K; ++i) b.async_insert(100 + i % 3);
+    world.barrier();
+    line("CP counting_set_copy " + std::to_string(me) + " :" + kvs(b.m_map.m_impl.m_local_map) + " |" + kvs(a.m_map.m_impl.m_local_map));
+    world.cf_barrier();
+  }
+  {
+    disjoint_set<long> a(world);
+    a.async_union(10 * me, 10 * me + 1);
+    disjoint_set<long> b(a);
+    b.async_union(10 * me + 1, 10 * me + 2);
+    world.barrier();
+    std::string s = "CP disjoint_set_copy " + std::to_string(me) + " :";
+    std::vector<long> v;
+    for (auto &kv : b.m_impl.m_local_item_parent_map) v.push_back(kv.first);
+    s += keys(v) + " |";
+    v.clear();
+    for (auto &kv : a.m_impl.m_local_item_parent_map) v.push_back(kv.first);
+    line(s + keys(v));
     world.cf_barrier();
   }
   line("DONE " + std::to_string(me));
